@@ -17,16 +17,24 @@ RULE = ("exhaustive: every mesh pattern of length <= 2 (all 2+16+1024 shadings) 
         "around 200 (cells around points, at the border, next to shaded cells; bands with one hole at the far end); "
         "objects with a past: on a deterministic twelfth of the lines the pattern is fresh / used / derived from a used "
         "object through another API route (past.mkmesh2: shade() of a used pattern, symmetries and back, unrank, "
-        "add_point + sub_mesh_pattern, copies); returned lists / dicts / sets are damaged and the call is repeated")
+        "add_point + sub_mesh_pattern, copies); returned lists / dicts / sets are damaged and the call is repeated; "
+        "outgrid-simul: can_simul_shade / north_east_simul_shading_lemma_conditions on positions that are not cells of the "
+        "grid, negative coordinates included: length <= 1 every mesh pattern x every edge-adjacent ordered pair of the window "
+        "[-n-2, 2n+2]^2 (all ordered pairs for two shadings per length in quick, all in thorough), length 2 sampled shadings "
+        "(half with two equal rows / columns) x every edge-adjacent pair of [-3, 5]^2, lengths 3-12 pairs aimed at the "
+        "negative-subscript wrap-around in each of the four rounds, pairs across the border, shifted / far positions")
 ASSUMPTIONS = [
     "model/implementation agreement outside the enumerated and sampled inputs is assumed",
     "the oracle judges licensed shadings and add_point against permutations of length <= 6 (quick) / 7 (thorough) only; the universally quantified statements are the Lean theorems can_shade_sound, can_simul_shade_sound, shadable_boxes_sound, add_point_spec",
-    "can_simul_shade / shadable_boxes are modelled for cells inside the grid [0,n]^2 only (out-of-range cells there lead "
-    "to negative coordinates after the rotation; not modelled, not exercised)",
-    "negative coordinates are not in the protocol",
+    "can_simul_shade / north_east_simul_shading_lemma_conditions are modelled for ARBITRARY integer positions "
+    "(Model/C18Int.lean: rotation into negative coordinates, Python's negative subscripts in self.pattern[pos1[0] - 1], "
+    "IndexError beyond; ops cansimul / css / cssz / nesimul take signed cells); on such positions the property demands "
+    "nothing of the call itself (shade() refuses them), the oracle (cssz) accepts an exception and requires a licence to "
+    "be sound for the cells of the grid among the two positions",
+    "negative coordinates are not in the protocol of the other operations (can_shade, add_point, is_shaded, ...); for "
+    "can_shade every natural position is modelled (outside the grid it raises IndexError in round 0 or 1)",
 ]
 PARTIAL = [
-    "out-of-grid arguments of can_simul_shade (negative intermediate coordinates) are outside the model",
 ]
 TRUSTED = ["the encoding of ascii_plot strings into one protocol token (' '->'.', newline->'/', U+2592->'#', U+25CF->'o') "
            "is applied after the real rendering on both sides and is a bijection on the alphabet used"]
@@ -243,6 +251,15 @@ def _impl(op, a):
     if op == "css":
         return guarded(lambda: (lambda m: redo(lambda: m.can_simul_shade(cell(a[2]), cell(a[3])),
                                                lambda l: fbool(bool(l)), spoil_list))(mk(a)))
+    if op == "cssz":
+        # the verdict alone, for arbitrary integer positions: a licence is a non-empty list; an exception licenses nothing
+        def f():
+            m = mk(a)
+            try:
+                return fbool(bool(m.can_simul_shade(cell(a[2]), cell(a[3]))))
+            except (IndexError, AssertionError):
+                return "F"
+        return guarded(f)
     if op == "adj":
         return guarded(lambda: fbool(adj_ok(pseq(a[0]), [cell(a[2])], mk(a).can_shade(cell(a[2])))))
     if op == "adj2":
@@ -364,6 +381,12 @@ def oracle(op, a):
         if not inrange(n, c1, c2):
             return None
         return None if same_class(p, sh, [c1, c2], int(a[4])) else "F"
+    if op == "cssz":
+        # positions that are not cells of the grid cannot be shaded (shade() asserts); the property then demands
+        # nothing of the call itself (an exception is fine) but a licence must still be sound for whatever can be shaded:
+        # the cells of the grid among the two
+        cs = [c for c in (cell(a[2]), cell(a[3])) if inrange(n, c)]
+        return None if same_class(p, sh, cs, int(a[4])) else "F"
     if op == "sbl":
         g = pgroup(a[2])
         return None if same_class(p, sh, g, int(a[3])) else "F"
@@ -414,6 +437,9 @@ def nontrivial(op, a, out):
     if out.startswith("ERR:"):
         return False
     p, sh = pseq(a[0]), pcells(a[1])
+    if op == "cssz":       # two edge-adjacent positions of Z^2, at least one outside the grid
+        (x1, y1), (x2, y2) = cell(a[2]), cell(a[3])
+        return abs(x1 - x2) + abs(y1 - y2) == 1
     if op in ("cs", "css", "sbl", "necond", "nesimul"):
         return out == "T"
     if op in ("canshade", "cansimul"):
@@ -659,6 +685,102 @@ def large_lines(rng, quick):
             lines.append("addpt %s %d.%d %d" % (pre, hole[0], hole[1], rng.randrange(-1, 4)))
     return lines
 
+def rot_back(n, c, j):
+    """the position whose image under j rotations of the loop of can_simul_shade (pos -> (pos[1], n - pos[0])) is c"""
+    for _ in range(j):
+        c = (n - c[1], c[0])
+    return c
+
+
+def outgrid_lines(rng, quick, smax):
+    """can_simul_shade / north_east_simul_shading_lemma_conditions on positions that are NOT cells of the grid
+    (coordinates > n or negative).  cansimul / nesimul compare the exact answer (list, IndexError, AssertionError) with
+    the model; cssz is the verdict judged by the oracle."""
+    lines = []
+
+    def both(pre, u, v, n):
+        lines.append("cansimul %s %s %s" % (pre, fc(u), fc(v)))
+        lines.append("cssz %s %s %s %d" % (pre, fc(u), fc(v), smax))
+        lines.append("nesimul %s %s %s" % (pre, fc(u), fc(v)))
+
+    def window(n, lo, hi):
+        return [(x, y) for x in range(lo, hi + 1) for y in range(lo, hi + 1)]
+
+    def adjacent(cells, n):
+        cs = set(cells)
+        return [(c, (c[0] + dx, c[1] + dy)) for c in cells for dx, dy in ((1, 0), (-1, 0), (0, 1), (0, -1))
+                if (c[0] + dx, c[1] + dy) in cs and not inrange(n, c, (c[0] + dx, c[1] + dy))]
+
+    # length 0 and 1: every mesh pattern; all ordered pairs of positions of the window [-n-2, 2n+2]^2 that are not both
+    # cells of the grid (quick: all pairs for two shadings per length, edge-adjacent pairs for the others)
+    for n in (0, 1):
+        W = window(n, -n - 2, 2 * n + 2)
+        meshes = list(all_meshes(n))
+        full = set(range(len(meshes))) if not quick else {0, rng.randrange(len(meshes))}
+        for i, (p, sh) in enumerate(meshes):
+            pre = "%s %s" % (fseq(p), fcells(sh))
+            if i in full:
+                for u in W:
+                    for v in W:
+                        if not inrange(n, u, v):
+                            lines.append("cansimul %s %s %s" % (pre, fc(u), fc(v)))
+            for u, v in adjacent(W, n):
+                both(pre, u, v, n)
+    # length 2: sampled shadings (half of them with two equal rows / columns, which the row condition of the
+    # simultaneous lemma asks for) x every edge-adjacent ordered pair of the window [-3, 5]^2 not inside the grid
+    cells2 = [(x, y) for x in range(3) for y in range(3)]
+    W = window(2, -3, 5)
+    adj2 = adjacent(W, 2)
+    for k in range(12 if quick else 150):
+        p = rand_perm(rng, 2)
+        if k % 2:
+            sh = {c for c in cells2 if rng.random() < 0.3}
+        else:
+            r1, r2 = rng.sample(range(3), 2)
+            col = {x for x in range(3) if rng.random() < 0.4}
+            sh = {(x, r1) for x in col} | {(x, r2) for x in col}
+            if rng.random() < 0.5:
+                sh = {(y, x) for x, y in sh}
+        pre = "%s %s" % (fseq(p), fcells(sorted(sh)))
+        for u, v in adj2:
+            both(pre, u, v, 2)
+    # lengths 3-5 (and a few long ones): pairs aimed at the negative-index wrap-around: in the frame of round j the upper
+    # position is (a, b) with 1 - n <= a <= -1 and b - 1 = pattern[a - 1] (Python index), the lower one (a, b - 1);
+    # pairs straddling the border of the grid; far-away positions
+    for _ in range(150 if quick else 2500):
+        n = rng.choice((3, 3, 4, 5, 9, 12))
+        p, sh = rand_mesh(rng, n) if rng.random() < 0.7 else (rand_perm(rng, n), [])
+        pre = "%s %s" % (fseq(p), fcells(sh))
+        for _ in range(4):
+            m = rng.randrange(4)
+            if m == 0:
+                a = rng.randrange(1 - n, 0)
+                b = p[a - 1] + 1
+                u, v = (a, b), (a, b - 1)
+            elif m == 1:        # across the border: one cell of the grid and its neighbour outside
+                t = rng.randrange(n + 1)
+                u, v = rng.choice([((n, t), (n + 1, t)), ((t, n), (t, n + 1)), ((0, t), (-1, t)), ((t, 0), (t, -1))])
+            elif m == 2:        # next to a point, shifted out of the grid by n + 1 or reflected
+                i = rng.randrange(n)
+                u, v = (i + 1, p[i] + 1), (i + 1, p[i])
+                d = rng.choice([(n + 1, 0), (0, n + 1), (-n - 1, 0), (0, -n - 1)])
+                u, v = (u[0] + d[0], u[1] + d[1]), (v[0] + d[0], v[1] + d[1])
+            else:
+                u = (rng.randrange(-2 * n, 3 * n), rng.randrange(-2 * n, 3 * n))
+                v = rng.choice([(u[0], u[1] - 1), (u[0] + 1, u[1]), (rng.randrange(-n, 2 * n), rng.randrange(-n, 2 * n))])
+            j = rng.randrange(4)
+            u, v = rot_back(n, u, j), rot_back(n, v, j)
+            if rng.random() < 0.5:
+                u, v = v, u
+            if inrange(n, u, v):
+                continue
+            if n <= 5:
+                both(pre, u, v, n)
+            else:
+                lines.append("cansimul %s %s %s" % (pre, fc(u), fc(v)))
+                lines.append("nesimul %s %s %s" % (pre, fc(u), fc(v)))
+    return lines
+
 
 def run(ctx):
     cmp0 = ctx.compare
@@ -727,6 +849,8 @@ def run(ctx):
     cmp("random-len5-7-structure", big)
     # ---- large: sizes the other streams never reach (structure only)
     cmp("large", large_lines(rng, ctx.tier == "quick"))
+    # ---- positions that are not cells of the grid, for the simultaneous lemma (negative coordinates included)
+    cmp("outgrid-simul", outgrid_lines(rng, ctx.tier == "quick", min(smax, 5)))
     # ---- malformed: shaded target cell, out-of-range cells, bad sizes
     mal, malsem = [], []
     for p, sh in [((), []), ((0,), [(0, 0), (1, 1)]), ((1, 0), [(0, 2), (2, 2), (1, 1)]), ((0, 2, 1), [(3, 3), (0, 0)])]:
